@@ -3,13 +3,20 @@ mod exec;
 mod script;
 mod serde_doc;
 mod gen;
+mod watch;
 
 use std::io::{BufRead, Write};
 
 #[global_allocator]
 static GLOBAL: alloc::Counting = alloc::Counting;
 
+/// seconds one operation on the real crate may take before it counts as not returning
+fn hang_secs(default: u64) -> u64 {
+    std::env::var("PDS_HARNESS_HANG_SECS").ok().and_then(|x| x.parse().ok()).unwrap_or(default)
+}
+
 fn main() {
+    alloc::count_this_thread();
     if std::env::var("PDS_HARNESS_PANICS").is_err() {
         std::panic::set_hook(Box::new(|_| {}));
     }
@@ -23,25 +30,34 @@ fn main() {
             // run an ops file against the real crate, print the answers
             let f = std::fs::File::open(&args[2]).expect("ops file");
             let mut ex = exec::Exec::new();
-            let out = std::io::stdout();
-            let mut out = std::io::BufWriter::new(out.lock());
+            watch::start(hang_secs(5), watch::OnHang::PrintAnswer);
             for line in std::io::BufReader::new(f).lines() {
                 let line = line.unwrap();
+                let t = line.trim();
+                if !t.is_empty() && !t.starts_with('#') {
+                    watch::touch(t);
+                }
                 if let Some(a) = ex.step(&line) {
-                    writeln!(out, "{}", a).unwrap();
+                    watch::answer(&a);
                 }
             }
+            watch::disarm();
+            watch::flush();
         }
         "gen" => {
             let prop = &args[2];
             let tier = &args[3];
             let seed: u64 = args[4].parse().expect("seed");
             let outdir = &args[5];
+            std::fs::create_dir_all(outdir).unwrap();
+            let _ = std::fs::remove_file(format!("{}/hang.ops", outdir));
+            watch::start(hang_secs(20), watch::OnHang::WriteOps(format!("{}/hang.ops", outdir)));
             gen::run(prop, tier, seed, outdir);
         }
         "oracle" => {
             // re-run the property oracle on an existing ops file (replay / shrinking)
             let prop = &args[2];
+            watch::start(hang_secs(5), watch::OnHang::OracleFail);
             let ok = gen::oracle_file(prop, &args[3]);
             std::process::exit(if ok { 0 } else { 1 });
         }
